@@ -121,11 +121,11 @@ namespace
         for(int r = 0; r <= 3; ++r)
         {
           // work bound: (points of the refined rule) x (monomials up to the nominal degree); the base rule itself is
-          // always checked in full, refinements beyond the budget are left out (quick: 3e7, thorough: 5e9 mult-adds)
+          // always checked in full, refinements beyond the budget are left out (quick: 3e7, thorough: 2e9 mult-adds)
           {
             double pts = 1; // points of the base rule are not known before creation: bound by degree-based estimate
             pts = std::pow(double(std::max(b.nominal, 1) / 2 + 1), double(dim)) * std::pow(double(1 << dim), double(r == 0 ? 1 : r));
-            if(pts * n_monomials(dim, std::max(b.nominal, 0)) > (vh::thorough() ? 5e9 : 3e7)) continue;
+            if(pts * n_monomials(dim, std::max(b.nominal, 0)) > (vh::thorough() ? 2e9 : 3e7)) continue;
           }
           std::string pre = r == 0 ? "refine:" : "refine*" + std::to_string(r) + ":";
           if(r == 0 && (&b - &base[0]) % 3 != 0) continue; // 'refine:' == 'refine*1:' -- sample a third of them
